@@ -300,6 +300,10 @@ func hostileSnapshot(rr *core.Rand) (*stack.Snapshot, *marked) {
 			gr.SleepMin, gr.SleepMax = rr.Intn(10), 10+rr.Intn(10)
 		}
 		nf := 1 + rr.Intn(4)
+		if rr.Chance(1, 40) {
+			// a very deep stack (deeper than the 100 frames the runtime prints when it elides): every frame appears
+			nf = 99 + rr.Intn(70)
+		}
 		for k := 0; k < nf; k++ {
 			gr.Stack.Calls = append(gr.Stack.Calls, mkCall())
 		}
